@@ -214,7 +214,9 @@ PROPS["C15"] = dict(
     rule="every history of 4 operations over render / register / loader put, delete / cache, auto-reload, development-mode toggles "
          "on 4 names and 2 loaders (one timestamp-aware) that ends in a render, plus TLC random walks of 14 operations; after EVERY "
          "operation the served version (or not-found), each loader's Load-call counters and the cached names are compared with the model; "
-         "a sample of all histories is replayed a second time with loader 2 as a real FileSystemLoader on a scratch directory",
+         "a sample of all histories is replayed a second time with loader 2 as a real FileSystemLoader on a scratch directory; "
+         "registration of compiled templates (older / newer stamps); every history of 5 (6) operations on one name with the loader "
+         "as a FileSystemLoader with two search paths and auto-reload on",
     assumptions=["CacheLoaders.tla Render(n) is the rule set; TLC checks the property's six sentences P1..P6 as action properties",
                  "a content change always raises the timestamp; deletion only in the plain loader; a name whose current source was "
                  "registered is rendered only while the cache is on (what a registered string means with the cache off is not determined)"],
@@ -254,7 +256,8 @@ PROPS["C20"] = dict(
     rule="every lookup history of length 2 (quick) / 3 (thorough) over 15 objects (6 struct shapes incl. embedded structs at depth 1 and 2, "
          "shadowing, value/pointer methods, unexported field; pointers to them; 3 Go map types) x 9 names, plus TLC random walks of 10 "
          "lookups, replayed with the real attribute cache set to the model's capacity 2 through the verif hook; sampled histories are "
-         "repeated at the production capacity with floods of 1100 fresh (type, name) pairs between the lookups",
+         "repeated at the production capacity with floods of 1100 fresh (type, name) pairs between the lookups; a shape whose pointer-"
+         "receiver method points into its receiver (two instances); every history ends with a joint render that keeps all results alive",
     assumptions=["AttrCache.tla: TLC checks CacheUnobservable for every victim choice; deviations KeyWithoutType / FirstIndexOnly must violate it",
                  "pointer-receiver methods are only looked up on pointers; a name that denotes an embedded struct itself is not looked up"],
 )
@@ -268,7 +271,9 @@ PROPS["C03"] = dict(
          "order-sensitive iff the reference output changes under some permutation of the key order; every date format string up to "
          "FmtLen over 18 format letters + separators on two dates; values carrying addresses (pointer field, pointer to pointer, func, "
          "chan) in 5 printing positions. Each case: 24 renders on fresh engines and fresh context values + 8 with reversed insertion "
-         "order, all in 3 independent sets of processes; every output must be byte-identical. non-trivial = not order-insensitive",
+         "order, all in 3 independent sets of processes; every output must be byte-identical; the same instant (8, before and after "
+         "1970) as time value / int / int64 / decimal formats alike; include-with hashes whose values read keys of the same hash "
+         "(plain, only, sandboxed) against the model's value. non-trivial = not order-insensitive",
     assumptions=["no reference order is assumed: any fixed order passes", "a failing render is a fixed result too (anyoutcome)"],
 )
 
@@ -281,7 +286,8 @@ PROPS["C18"] = dict(
          "shapes ([]interface{} and []int with spare capacity, []string, [3]int, untyped and typed maps), re-observation of an "
          "intermediate value after a later filter, 8 kinds of scope writes to a name that exists in the context, nested data behind "
          "attributes; each case rendered twice with the SAME context value: both outputs equal the model's, deep snapshot of the "
-         "caller's data (incl. the elements between len and cap) unchanged",
+         "caller's data (incl. the elements between len and cap) unchanged; the same filter on two values of one shape with both "
+         "results alive (sets / nested / array); merge with 49 argument pairs of mixed kinds (any outcome, data unchanged)",
     assumptions=["values are immutable in the reference semantics, so Snapshot' = Snapshot is the specification; the verdict is an "
                  "observation of the real code (deep snapshot), hence level exploration",
                  "what join / last / sort / reverse / slice do to a map is not stated: maps only get keys, default, first, merge"],
@@ -304,7 +310,8 @@ PROPS["C16"] = dict(
          "names (ASCII, multi-byte, NUL, 0xFF, path-like, with blank) x timestamps (0, -1, 2^62, now) x 2 contexts; per case: field "
          "identity through Serialize/Deserialize, compiled form registered on a second engine / loaded from data / saved and loaded "
          "by the compiled loader renders like the source (= the reference semantics); the bytes handed out stay unchanged while "
-         "other templates are serialised; serialised bytes validated by Trace_C16",
+         "other templates are serialised; length sweep of source and name over the length-prefix boundaries; sibling names saved into "
+         "the same directory; comment-only sources; serialised bytes validated by Trace_C16",
     assumptions=["CompiledFmt.tla: TLC checks Decode(Encode(x)) = x and that every strict prefix is rejected, on a bounded record space",
                  "file-based steps only for names that are valid file names"],
 )
@@ -316,9 +323,13 @@ PROPS["C05"] = dict(
     nontrivial=lambda r: True,
     rule="tok: every sequence of up to SeqLen of 79 token classes (and up to SeqLenSmall of a 31-token alphabet) after {{ {% {%- {#, "
          "closed / unclosed / wrongly closed, optionally followed by a closing block tag; shape: 37 Go value shapes (nil, typed maps and "
-         "slices, arrays, structs, nil pointers, pointer to pointer, func, chan, time, []byte, error ...) x 75 skeleton templates; dec: "
+         "slices, arrays, structs, nil pointers, pointer to pointer, func, chan, time, []byte, error ...) x 75 skeleton templates; gen: "
+         "every built-in filter / function / test x 8 / 7 / 4 argument forms x 55 shapes (60-element lists with unhashable members, "
+         "min / max int64, NaN, regexp metacharacters, nil Stringer / error pointers, interface- and uint-keyed maps); ident: 29 odd "
+         "names and strings x 40 tag forms with a name slot or a quoted-operand slot; dec: "
          "truncation at every offset, 7 boundary values in every length field and 3 changes of every byte of 3 valid encodings. "
-         "Verdict: no panic, no hang (5 s, re-run alone with 50 s), no process death, and the engine still renders a probe template",
+         "Verdict: no panic, no hang (5 s, re-run alone with 50 s), no process death, and the engine still renders a nested probe "
+         "(page -> include -> include -> macro call, inherited block) twice",
     assumptions=["the verdict is observational (level exploration): the specification supplies the enumerated input spaces and the contract "
                  "(Ok or Err, engine usable afterwards); TLC checks that the reference decoder is total on the corruptions",
                  "a loop over range(1, 2^40) is excluded: a finite but enormous computation the template itself asks for"],
